@@ -95,6 +95,9 @@ type Exec struct {
 	// preferred) without recording choice points: used by harnesses for set-up and
 	// tear-down phases whose interleavings are not the subject of the scenario.
 	NoBranch bool
+	// SchedDeterministic makes only the thread scheduling deterministic; environment
+	// choices (Choose) are still recorded and enumerated.
+	SchedDeterministic bool
 
 	NumWorkers int // value returned for runtime.GOMAXPROCS(0)
 	MapReverse bool
@@ -394,7 +397,7 @@ func (x *Exec) pickNext(running *Thread) *Thread {
 			}
 			return nil
 		}
-		if len(en) == 1 || x.NoBranch {
+		if len(en) == 1 || x.NoBranch || x.SchedDeterministic {
 			return en[0]
 		}
 		cost := make([]uint8, len(en))
